@@ -163,6 +163,7 @@ def units(tier):
     us.append(('ehep', {'kind': 'ehep'}))
     us.append(('mader', {'kind': 'mader'}))
     us.append(('sdrz', {'kind': 'sdrz'}))
+    us.append(('rmtv', {'kind': 'rmtv'}))
     us += [('nohblackbox/%s/%d' % (c_, m_), {'kind': 'bbn', 'key': (c_, m_)}) for c_ in ('energy_noh_residual', 'pressure_noh_residual') for m_ in (0, 1, 2)]
     us += [('sedov/geometry=%d' % j_, {'kind': 'sedov', 'key': j_}) for j_ in (1, 2, 3)]
     return us
@@ -183,6 +184,9 @@ def run_unit(name, kind, key=None, case=None, tier='quick', pat=None, fam=None):
     if kind == 'sdrz':
         from props import sdrz_kit
         return sdrz_kit.unit('C02')
+    if kind == 'rmtv':
+        from props import rmtv_kit
+        return rmtv_kit.unit()
     if kind == 'bbn':
         from props import bbnoh_kit
         return bbnoh_kit.unit(key[0], key[1])
